@@ -1,5 +1,6 @@
 import GN.Props.C06
 import GN.EventLoop.Progress
+import GN.EventLoop.Combined
 open GN.Props.C06
 #print axioms count_is_exact
 #print axioms zero_iff_no_live_job
@@ -13,3 +14,9 @@ open GN.Props.C06
 #print axioms GN.EventLoop.Progress.live_work_is_enabled
 #print axioms GN.EventLoop.Progress.run_exit_never_blocked
 #print axioms GN.EventLoop.Progress.run_returns_at_quiescence
+#print axioms GN.EventLoop.Combined.run_returns_never_earlier
+#print axioms GN.EventLoop.Combined.run_does_not_return_while_a_job_is_live
+#print axioms GN.EventLoop.Combined.run_returns_always_then
+#print axioms GN.EventLoop.Combined.quiesce_enabled_iff
+#print axioms GN.EventLoop.Combined.count_stable_at_select
+#print axioms GN.EventLoop.Combined.live_timer_has_enabled_step_at_select
